@@ -420,7 +420,7 @@ def sentinelise(spec, all_fields=False):
 
 def observe(text):
     """[(sentinel, qualifier or None)] in text order: the token immediately before each sentinel column"""
-    return [[n, q] for n, q, _, _ in observe_full(text)]
+    return [[n, q] for n, q, _, _ in observe_full(text) if n != "*"]
 
 
 KEYWORDS = [("SELECT ", "select"), (" FROM ", None), (" JOIN ", None), (" ON ", "on"), (" USING ", None), (" WHERE ", "where"),
@@ -495,6 +495,10 @@ def observe_full(text):
                     set_side = "value"
                 elif ch == "," and fdepth == 0:
                     set_side = "target"
+        if ch == "." and i + 1 < n and text[i + 1] == "*":
+            out.append(_occurrence(text, i + 1, "*", depth, clause, set_side))
+            i += 2
+            continue
         m = SENT.match(text, i)
         if m and (i == 0 or not (text[i - 1].isalnum() or text[i - 1] == "_")) and \
                 (m.end() >= n or not (text[m.end()].isalnum() or text[m.end()] == "_")):
@@ -830,8 +834,64 @@ class XGen:
         return q
 
 
+# ---- histories of from_() / join() calls in any order ------------------------------------------
+def _hist_subq(k):
+    """a sub-query whose own _subquery_count is k"""
+    from pypika import Query, Table
+    b = Query._builder()
+    for i in range(k):
+        b = b.from_(Query.from_(Table("p%d" % i)).select("x"))
+    if k == 0:
+        b = b.from_(Table("u"))
+    return b.select("*")
+
+
+def build_hist(evs):
+    """events: [op, kind, ...]: op 'from' | 'join'; kind 'table' alias | 'fresh' k | 'aliased' k alias | 'pretag' k n"""
+    from pypika import Query, Table
+    q = Query._builder()
+    objs, given = [], []
+    for n, e in enumerate(evs):
+        op, kind = e[0], e[1]
+        if kind == "table":
+            o = Table("h%d" % n, alias=e[2])
+            given.append(e[2])
+        else:
+            o = _hist_subq(int(e[2]))
+            if kind == "aliased":
+                o = o.as_(e[3])
+            elif kind == "pretag":
+                host = Query._builder()
+                for i in range(int(e[3])):
+                    host = host.from_(Query.from_(Table("pad%d" % i)).select("x"))
+                host.from_(o)
+            given.append(o.alias)
+        q = q.from_(o) if op == "from" else q.join(o).cross()
+        objs.append(o)
+    q = q.select("*")
+    return q, objs, given
+
+
+def gen_hist(rng):
+    n = rng.choice([2, 3, 3, 4, 5, 6])
+    evs = []
+    for i in range(n):
+        op = "from" if i == 0 else rng.choice(["from", "join", "join"])
+        r = rng.random()
+        k = rng.choice([0, 0, 0, 1, 2, 3])
+        if r < 0.2:
+            evs.append([op, "table", rng.choice([None, None, "ta%d" % i])])
+        elif r < 0.75:
+            evs.append([op, "fresh", k])
+        elif r < 0.9:
+            evs.append([op, "aliased", k, rng.choice(["z%d" % i, "sub%d" % i, "sq", "sqx"])])
+        else:
+            evs.append([op, "pretag", k, rng.choice([0, 0, 1, 2])])
+    return {"kind": "hist", "evs": evs}
+
+
 def gen_cases(rng, tier):
-    n_stmt, n_term, n_exec = (330, 90, 160) if tier == "quick" else (5000, 1200, 2500)
+    n_stmt, n_term, n_exec, n_hist = (330, 90, 160, 120) if tier == "quick" else (5000, 1200, 2500, 2000)
     out = []
     for i in range(n_stmt):
         g = CGen(rng, max_depth=rng.choice([1, 2, 2, 3]), p_subq=rng.choice([0.2, 0.35, 0.5]), p_alias=rng.choice([0.15, 0.35, 0.6]))
@@ -842,6 +902,8 @@ def gen_cases(rng, tier):
         out.append(gen_term_case(rng))
     for i in range(n_exec):
         out.append({"kind": "exec", "q": XGen(rng, p_bad=rng.choice([0.0, 0.2, 0.4])).stmt()})
+    for i in range(n_hist):
+        out.append(gen_hist(rng))
     # malformed stream: references to tables that are in no scope at all, joins whose criterion names an unknown table
     for i in range(20 if tier == "quick" else 200):
         g = CGen(rng, max_depth=1)
@@ -952,6 +1014,12 @@ def _source_kind(src, user_alias):
 
 
 def run_impl(case):
+    if case["kind"] == "hist":
+        try:
+            q, objs, given = build_hist(case["evs"])
+            return {"text": str(q), "aliases": [o.alias for o in objs], "given": given}
+        except Exception as e:  # noqa
+            return {"text": "!" + type(e).__name__}
     if case["kind"] == "term":
         text = tf.render_impl(case["t"], case["c"])
         return {"text": text, "obs": [] if text.startswith("!") else observe(text)}
@@ -995,11 +1063,16 @@ def run_impl(case):
             names[str(sid) + ":target"] = {"kind": "aliased-table" if s["table"][2] else "table", "user_alias": s["table"][2],
                                            "alias": ut.alias, "table": ut._table_name}
     out["names"] = names
+    out["chains"] = sorted({tuple(list(src[1][1]) + [src[1][0]]) for s_, _, _ in stmts for src in own_sources(s_)
+                            if src[0] == "t" and src[1][1]}
+                           | {tuple(list(s_[key][1]) + [s_[key][0]]) for s_, _, _ in stmts for key in ("table", "into")
+                              if s_.get(key) and s_[key][1]})
     out["pretags"] = [rec.get(("tag", id(s_))) for s_, _, _ in stmts if s_.get("pretag") is not None]
     out["refs"] = refs
     out["info"] = {str(k): v for k, v in info.items()}
     full = observe_full(text)
-    out["obs"] = [[n_, q_] for n_, q_, _, _ in full]
+    out["obs"] = [[n_, q_] for n_, q_, _, _ in full if n_ != "*"]
+    out["stars"] = [[q_, d_] for n_, q_, d_, _ in full if n_ == "*"]
     out["top_obs"] = [[n_, q_, c_] for n_, q_, d_, c_ in full if d_ == 0]
     top = rec.get(id(spec))
     if spec["k"] in ("sel", "upd", "del") and top is not None:
@@ -1012,6 +1085,18 @@ def run_impl(case):
 
 
 def to_coq(case, outcome):
+    if case["kind"] == "hist":
+        if outcome["text"].startswith("!"):
+            return None
+        evs = []
+        for e, g in zip(case["evs"], outcome["given"]):
+            if e[1] == "table":
+                evs.append("(EOther %s)" % OS(g))
+            elif e[0] == "from":
+                evs.append("(EFromQ %s %s)" % (OS(g), N(e[2])))
+            else:
+                evs.append("(EJoinQ %s)" % OS(g))
+        return "(CHist %s %s)" % (L(evs), L([OS(a) for a in outcome["aliases"]]))
     if case["kind"] == "term":
         refs = L(["(%s, %s)" % (OS(qu), S(n)) for n, qu in outcome.get("obs", [])])
         return "(CTerm %s %s %s %s)" % (tf.ctx_coq(case["c"]), tf.coq(case["t"]), S(outcome["text"]), refs)
@@ -1221,6 +1306,8 @@ def oracle(case, outcome):
         return []
     if case["kind"] == "term":
         return oracle_term(case, outcome)
+    if case["kind"] == "hist":
+        return oracle_hist(case, outcome)
     viols = []
     names, info = outcome["names"], outcome["info"]
     byname = {}
@@ -1251,6 +1338,37 @@ def oracle(case, outcome):
             viols.append({"signature": ["C10", "correlated-subquery" if why.startswith("unqualified-correlated") else r["clause"], kind, why],
                           "what": "reference %s bound to source %r (%s) of statement #%d is written with qualifier %r in %r"
                                   % (n, name, kind, r["sid"], qual, text[:300])})
+    # (a') qualified stars: at the top statement exactly the bound source's name, elsewhere the name of a star-bound source
+    star_refs = [r for r in outcome["refs"] if r["col"] == "*"]
+    exp_all = set()
+    top_exp = []
+    for r in star_refs:
+        e = _expected(r["bind"], names)
+        if e is None:
+            exp_all.add(None)
+            continue
+        exp_all.add(e[0])
+        if r["sid"] == 0:
+            top_exp.append(e)
+    if star_refs and None not in exp_all:
+        top_seen = [q_ for q_, d_ in outcome.get("stars", []) if d_ == 0]
+        for q_, d_ in outcome.get("stars", []):
+            if q_ not in exp_all:
+                viols.append({"signature": ["C10", "select", "star", "wrong-qualifier"],
+                              "what": "star written with qualifier %r, the star-bound sources are called %r in %r" % (q_, sorted(exp_all), text[:300])})
+        multi0 = info["0"]["nsrc"] > 1 or info["0"]["correlated"]
+        if top_exp and all(e[1] or multi0 for e in top_exp):     # every top-level star must be qualified: compare in order
+            for k_, e in enumerate(top_exp):
+                got = top_seen[k_] if k_ < len(top_seen) else None
+                if got != e[0]:
+                    why = "alias-dropped" if (got is None and e[1]) else ("unqualified" if got is None else "wrong-qualifier")
+                    viols.append({"signature": ["C10", "select", "star", why],
+                                  "what": "star of source %r written with qualifier %r in %r" % (e[0], got, text[:300])})
+    # (a'') schema / database prefixes outermost first on the table itself
+    for chain in outcome.get("chains", []):
+        if not any(".".join(qc + x + qc for x in chain) in text for qc in ('"', "`", "")):
+            viols.append({"signature": ["C10", "from", "table", "schema-order"],
+                          "what": "table %r is not written outermost-first in %r" % (".".join(chain), text[:300])})
     # (b) invented names within one statement
     for sid, ent in names.items():
         if ent is None or sid.endswith(":target"):
@@ -1282,6 +1400,22 @@ def oracle(case, outcome):
         elif not err and ex.get("ref_rows") is not None and ex["rows"] != ex["ref_rows"]:
             viols.append({"signature": ["C10", "sqlite", "rows-differ", _exec_cause(outcome)],
                           "what": "%r returns %r, the fully qualified reference %r returns %r" % (text[:300], ex["rows"][:5], ex["ref"][:300], ex["ref_rows"][:5])})
+    return _dedupe(viols)
+
+
+def oracle_hist(case, outcome):
+    """names of the sub-queries the user did not alias are pairwise distinct within the statement"""
+    viols, seen = [], {}
+    for e, a in zip(case["evs"], outcome["aliases"]):
+        if e[1] not in ("fresh", "pretag"):
+            continue
+        if a is None:
+            viols.append({"signature": ["C10", "from/join", "subquery", "no-name"], "what": "un-aliased sub-query left without a name: %r" % outcome["text"][:300]})
+        elif a in seen:
+            reused = e[1] == "pretag" or seen[a] == "pretag"
+            viols.append({"signature": ["C10", "from/join", "subquery", "duplicate-invented-name" + ("-reused-object" if reused else "")],
+                          "what": "calls %r name two sub-queries %r: %r" % (case["evs"], a, outcome["text"][:300])})
+        seen.setdefault(a, e[1])
     return _dedupe(viols)
 
 
@@ -1344,6 +1478,8 @@ def oracle_term(case, outcome):
 # evidence helpers
 # ----------------------------------------------------------------------------------------------
 def nontrivial_key(case):
+    if case["kind"] == "hist":
+        return json.dumps(case["evs"]) if sum(1 for e in case["evs"] if e[1] != "table") >= 2 else None
     if case["kind"] == "term":
         fs = []
         term_fields(case["t"], fs)
@@ -1370,6 +1506,10 @@ def histogram(cases):
         h[k] = h.get(k, 0) + n
     for c in cases:
         inc("kind=" + c["kind"])
+        if c["kind"] == "hist":
+            for e in c["evs"]:
+                inc("hist:%s-%s" % (e[0], e[1]))
+            continue
         if c["kind"] == "term":
             continue
         refs, info, stmts, _ = analyse(c["q"])
@@ -1437,4 +1577,6 @@ def targeted_search(rng, broken, mism_cases):
         out.append({"kind": "exec", "q": XGen(rng, p_bad=0.0).stmt()})
     for _ in range(150):
         out.append(gen_term_case(rng))
+    for _ in range(600):
+        out.append(gen_hist(rng))
     return out
